@@ -33,7 +33,7 @@ type cfg struct {
 	batched            bool   // CKKS: input ciphertext IsBatched
 	outChain           string // masked transforms: name of the output parameters' chain ("" = same parameters)
 	outVia             string // CKKS: how the switching protocol is obtained: "new" (constructor) | "with" (WithParams)
-	lambda             int    // CKKS: security parameter given to GetMinimumLevelForRefresh (0 = 128)
+	lambda             int    // CKKS: security parameter given to GetMinimumLevelForRefresh (0 = 128; -1 = boundary search)
 	ctFlip             bool   // RLWE level: the ciphertext is in the domain the parameters do NOT use by default
 	scaleKind          string // CKKS input scale: "" a power of two | "nd" 2^k+2^(k-53)-1 | "rescaled" 2^(2k)/(q_max*q_(max-1)) through an actual Rescale
 }
@@ -108,7 +108,7 @@ func cover(c *engine.Chooser, k cfg) {
 }
 
 func scenarios(tier string) []engine.Scenario {
-	out := smudgeScenarios(tier) // single-leaf scenarios first
+	out := append(smudgeScenarios(tier), minLevelScenarios()...) // single-leaf scenarios first
 	seen := map[string]bool{}
 	cat := catalogue(tier)
 	// cheapest first: when the internal deadline strikes on a loaded machine, depth is lost, not breadth
@@ -148,7 +148,7 @@ func main() {
 			"Inside, the merge lattice of the parties' shares (N<=3 quick, <=4 thorough: every pair at every step = every order and tree shape; N=5..8 left-deep orders within `bound` departures from index order), per merge one of 6 variants (plain, swapped, serialization hop of either operand, output aliasing either operand; <=1 non-plain per history). " +
 			"Every transition is compared with the coefficient-wise sum of the member shares; the terminal aggregate is fed to KeySwitch / GetShare / GetEncryption / Finalize / Transform and the result is read with an independent phase computation under the target key. " +
 			"Further non-free axes per leaf (sharing the deviation bound): how the parties' protocol objects were obtained (ShallowCopies of party 0's / all constructed / a chain of copies) and what the objects did before the judged run (nothing / a run at level 0 / a run at the maximum level with the same key objects / a run with other keys). " +
-			"RLWE-level protocols run in all four cells of (ciphertext domain NTT/coefficient) x (parameters NTTFlag true/false), at every level. Chains include conjugate-invariant rings (RLWE level and CKKS, even and odd log N); masked transforms also switch parameters (BGV: another chain; CKKS: another chain with another default scale, twice and half the ring degree, through the constructor and through WithParams); a high-precision CKKS world (12.. 8 primes, scale 2^90, input scales 2^90, 2^90+2^37-1 and 2^180/(q7*q6) obtained by an actual Rescale); CKKS log-bound settings from security parameters 64/128/160; two chains with no slack at the documented minimum level. " +
+			"RLWE-level protocols run in all four cells of (ciphertext domain NTT/coefficient) x (parameters NTTFlag true/false), at every level. Chains include conjugate-invariant rings (RLWE level and CKKS, even and odd log N); masked transforms also switch parameters (BGV: another chain; CKKS: another chain with another default scale, twice and half the ring degree, through the constructor and through WithParams); a high-precision CKKS world (12.. 8 primes, scale 2^90, input scales 2^90, 2^90+2^37-1 and 2^180/(q7*q6) obtained by an actual Rescale); CKKS log-bound settings from security parameters 64/128/160; two chains with no slack at the documented minimum level; boundary scenarios for 3, 5, 6 and 7 parties where the harness searches the security parameter that puts a partial product Q_k less than log2(n) bits above the mask bound 2^logBound (the level a floor(log2 n) would wrongly accept), and a sweep scenario that checks the REPORTED (minLevel, logBound) of GetMinimumLevelForRefresh in exact big-integer arithmetic over lambda 4..200 x 1..8 parties x scales x chains. " +
 			"KeySwitch-shaped shares also travel through WriteTo/ReadFrom over fragmenting transports. BGV refresh/transform shares: the error of both halves is isolated per share (the re-encryption half separates into f(M) + t*e exactly). " +
 			"Every finalisation call (KeySwitch of both protocols, GetEncryption, Finalize / Transform) is repeated in every leaf with six receiver shapes (fresh at / above / below the result level, degree 2, stale content above / at the level) and must give the in-place result (level, degree, polynomials, metadata) or refuse with an error. Smudge scenarios: one leaf = 4 parties (a constructed object, its ShallowCopy, a copy of the copy, a second constructed object; all reused over the rounds at changing levels) x 8..32 ciphertexts (>= 512 error coefficients), the error of every share isolated as share - c1*(s_in - s_out) (+ the mask).",
 		Assumptions: []string{
@@ -184,7 +184,7 @@ func expect(tier string) []string {
 		"merge-variant=stream-first-1byte", "merge-variant=stream-second-split5",
 		"chain=midci", "chain=mixedci", "chain=ck40ci", "chain=ck25ci", "ckks-ring=conjugate-invariant",
 		"params-switch=bgv/mixed->mid", "params-switch=ckks/new/N16->N16", "params-switch=ckks/with/N16->N16", "params-switch=ckks/new/N16->N32", "params-switch=ckks/with/N16->N32",
-		"params-switch=ckks/new/N32->N16", "params-switch=ckks/with/N32->N16", "domain=ct-ntt=true/params-ntt=true", "domain=ct-ntt=false/params-ntt=true", "domain=ct-ntt=true/params-ntt=false", "domain=ct-ntt=false/params-ntt=false", "consecutive-calls=ckks-getshare", "consecutive-calls=bgv-getshare", "alias=outputs-vs-inputs-and-callee", "receiver=fresh-at-result-level", "receiver=fresh-above", "receiver=fresh-below", "receiver=degree-2", "receiver=stale-content-above", "receiver=stale-content-at-level", "chain=ck90", "ckks-scale=nd", "ckks-scale=rescaled", "ckks-lambda=128", "ckks-lambda=64", "ckks-lambda=160",
+		"params-switch=ckks/new/N32->N16", "params-switch=ckks/with/N32->N16", "domain=ct-ntt=true/params-ntt=true", "domain=ct-ntt=false/params-ntt=true", "domain=ct-ntt=true/params-ntt=false", "domain=ct-ntt=false/params-ntt=false", "consecutive-calls=ckks-getshare", "consecutive-calls=bgv-getshare", "alias=outputs-vs-inputs-and-callee", "receiver=fresh-at-result-level", "receiver=fresh-above", "receiver=fresh-below", "receiver=degree-2", "receiver=stale-content-above", "receiver=stale-content-at-level", "chain=ckfrac", "ckks-boundary=n3", "ckks-boundary=n5", "ckks-boundary=n6", "ckks-boundary=n7", "minlevel-sweep=checked", "chain=ck90", "ckks-scale=nd", "ckks-scale=rescaled", "ckks-lambda=128", "ckks-lambda=64", "ckks-lambda=160",
 		"refresh-share-smudging=both-halves", "parties=4", "parties=5", "parties=8",
 		"ckks-flags=rejected", "ckks-minlevel=at-minimum", "ckks-minlevel=no-slack", "ckks-minlevel=below-minimum-rejected-or-correct",
 	}
